@@ -16,7 +16,7 @@ func init() {
 func runC13(c *Ctx) {
 	p := c.P
 	c.Rule("C13-R1", "result canonicalised by a sort after the fan-in; MergeRanges sorts after map iteration", 3)
-	c.Rule("C13-R2", "all slice results consumed; cross-slice merge; slice error fails the query; ends expanded", 6)
+	c.Rule("C13-R2", "all slice results consumed; cross-slice merge; slice error fails the query; slice cache key complete; ends expanded", 11)
 	c.Rule("C13-R3", "sort order keys on series identity and start", 2)
 	rq := c.MustFunc("C13-R1", "internal/promapi.Prometheus.RangeQuery")
 	if rq == nil {
@@ -142,6 +142,97 @@ func runC13(c *Ctx) {
 			return true
 		})
 		c.Check(bad == "", "C13-R2", "RangeQuery:only failed slices skip the append", drain.Pos(), "skip guarded by result.err != nil", "a slice response can be skipped at "+bad+" although it carries no error")
+	}
+	// the slice size handed to sliceRange is a multiple of the step (otherwise every slice restarts the evaluation grid)
+	{
+		var sizeObj, stepObj types.Object
+		ast.Inspect(rq.Decl.Body, func(n ast.Node) bool {
+			if call, ok := n.(*ast.CallExpr); ok && isCallTo(info, call, "internal/promapi.sliceRange") && len(call.Args) == 4 {
+				stepObj, sizeObj = objOf(info, call.Args[2]), objOf(info, call.Args[3])
+			}
+			return true
+		})
+		if sizeObj == nil || stepObj == nil {
+			c.Undecided("C13-R2", "RangeQuery:slice size variable", rq.Decl.Pos(), "sliceRange(start, end, step, size) call with variables not found")
+		} else {
+			bad := ""
+			n := 0
+			ast.Inspect(rq.Decl.Body, func(nd ast.Node) bool {
+				as, ok := nd.(*ast.AssignStmt)
+				if !ok {
+					return true
+				}
+				for i, l := range as.Lhs {
+					if objOf(info, l) != sizeObj || i >= len(as.Rhs) {
+						continue
+					}
+					n++
+					rhs := ast.Unparen(as.Rhs[i])
+					okRHS := false
+					if call, isCall := rhs.(*ast.CallExpr); isCall && len(call.Args) == 1 && objOf(info, call.Args[0]) == stepObj {
+						if sel, isSel := call.Fun.(*ast.SelectorExpr); isSel && sel.Sel.Name == "Round" {
+							okRHS = true
+						}
+					}
+					if id, isID := rhs.(*ast.Ident); isID && id.Name == "lookback" {
+						okRHS = true // whole range in one slice
+					}
+					if !okRHS {
+						bad = exprStr(as)
+					}
+				}
+				return true
+			})
+			c.Check(bad == "" && n >= 1, "C13-R2", "RangeQuery:slice size is a multiple of the step", rq.Decl.Pos(), itoa(n)+" assignment(s), all `.Round(step)` or the whole lookback", "the slice size is assigned by `"+bad+"`, which is not a multiple of the step: each slice restarts the step grid, so gaps next to a slice boundary appear or vanish")
+		}
+	}
+	// the only slice error that may be ignored is cancellation caused by an earlier failure
+	{
+		pmq := parentMap(rq.Decl.Body)
+		n := 0
+		ast.Inspect(rq.Decl.Body, func(nd ast.Node) bool {
+			as, ok := nd.(*ast.AssignStmt)
+			if !ok || len(as.Lhs) != 1 || len(as.Rhs) != 1 {
+				return true
+			}
+			rhs, isSel := as.Rhs[0].(*ast.SelectorExpr)
+			if !isSel || rhs.Sel.Name != "err" || fieldOwner(info, rhs) != "internal/promapi.queryResult" {
+				return true
+			}
+			if t := info.TypeOf(as.Lhs[0]); t == nil || t.String() != "error" {
+				return true
+			}
+			n++
+			bad := rangeSliceErrGuard(info, pmq, as, rq.Decl.Body)
+			c.Check(bad == "", "C13-R2", "RangeQuery:only context.Canceled slice errors are ignored", as.Pos(), "every other slice error fails the query", "`"+bad+"` lets a failed slice be dropped silently: the result has a hole whose extent depends on the arrival order of the slice responses")
+			return true
+		})
+		c.Check(n == 1, "C13-R2", "RangeQuery:slice errors recorded", rq.Decl.Pos(), "one recorder", itoa(n)+" stores of result.err")
+	}
+	// a slice answer is cached under a key that identifies the slice completely (start, end, step)
+	if ck := c.MustFunc("C13-R2", "internal/promapi.rangeQuery.CacheKey"); ck != nil {
+		kinfo := ck.Pkg.TypesInfo
+		for _, sf := range []string{"Start", "End", "Step"} {
+			found := false
+			ast.Inspect(ck.Decl.Body, func(n ast.Node) bool {
+				call, ok := n.(*ast.CallExpr)
+				if !ok || !isCallTo(kinfo, call, "internal/promapi.hash") {
+					return true
+				}
+				for _, a := range call.Args {
+					ast.Inspect(a, func(m ast.Node) bool {
+						if sel, ok := m.(*ast.SelectorExpr); ok && sel.Sel.Name == sf {
+							if inner, ok := sel.X.(*ast.SelectorExpr); ok && inner.Sel.Name == "r" && fieldOwner(kinfo, inner) == "internal/promapi.rangeQuery" {
+								found = true
+							}
+						}
+						return true
+					})
+				}
+				return true
+			})
+			c.Check(found, "C13-R2", "rangeQuery.CacheKey hashes r."+sf, ck.Decl.Pos(), "hashed", "the cache key of a slice ignores r."+sf+": a slice is answered from the cached result of a different slice (truncated or shifted ranges)")
+		}
 	}
 	// rangeQuery.Run: ExpandRangesEnd before value is published
 	if run := c.MustFunc("C13-R2", "internal/promapi.rangeQuery.Run"); run != nil {
